@@ -42,7 +42,7 @@ for line in open(results):
         "id": name,
         "breaks_property": prop,
         "summary": summ.get(name, ""),
-        "needs_to_manifest": "see notes.md (written by the sub-agent that produced the change)",
+        "needs_to_manifest": (summ.get(name, "") + " - the exact trigger conditions and the commands its author ran are in notes.md; demo.rs is a test that fails with the change and passes without it").strip(" -"),
         "written_by": "fresh sub-agent given only the property text and a scratch git worktree of /repo",
         "base_commit": head,
         "confirmed_by_me": {
@@ -55,8 +55,9 @@ for line in open(results):
                    + "; demo as tests/demo.rs with and without the change",
         },
         "checks_run": {
-            "how": "all 19 quick checks through a scratch copy of the harness pointed at the patched worktree (tools/"
-                   + ("checks_on_mutants.sh" if r.get("matrix_run") else "confirm_mutants.sh") + "), VERIF_SEED=0",
+            "how": ("the quick check of the property the change was written against" if notes.get(name, "").startswith("only") else "all 19 quick checks")
+                   + " through a scratch copy of the harness pointed at the patched scratch worktree (tools/"
+                   + ("checks_on_mutants.sh" if r.get("matrix_run") else "confirm_mutants.sh") + "), VERIF_SEED=0; /repo itself is never patched by these runs",
             "harness_commit": vhead,
             "detected_by": {k: v["sig"] for k, v in sorted(detected.items())},
             "inconclusive_exit_2": inconclusive,
